@@ -432,3 +432,175 @@ def replay_c14(ctx, fl):
     for f in ctx.report.prop_failures[before:]:
         print("FAIL:", f["why"])
     return len(ctx.report.prop_failures) == before
+
+
+# ---- concurrent whole operations against the reactive simulator (oracle only) ---------------------------------------
+def conc_sessions(ctx, n=None, only=None):
+    """2-3 workers (threads, or asyncio tasks) run whole shell()/streaming_shell() calls on ONE connected device against the reactive
+    simulator; control changes hands at every lock acquisition and inside every transport call (threads: optionally at every line of
+    _open).  No model correspondence here (the interleaving model abstracts sends away); the oracle is the property itself:
+    every worker gets exactly its own command's output, the bytes on the wire are whole well-formed messages, OPEN ids are distinct
+    among live streams, no deadlock.  A lost CLSE (K1) is classified as the known finding."""
+    import transports
+    import adb_shell.adb_device as sync_mod
+    import adb_shell.adb_device_async as async_mod
+    from adb_shell.adb_device import AdbDevice
+    from adb_shell.adb_device_async import AdbDeviceAsync
+    rep = ctx.report
+    total = n if n is not None else int((40 if ctx.tier == "quick" else 600) * ctx.budget)
+    if only is not None:
+        total = 1
+    for k in range(total):
+        rng = ctx.rng
+        mode = (only or {}).get("mode") or ("threads" if k % 2 == 0 else "tasks")
+        nw = (only or {}).get("workers") or rng.choice([2, 2, 3])
+        start = (only or {}).get("start", rng.choice([0, 0, 5, 2 ** 32 - 3, 2 ** 32 - 2]))
+        lines = (only or {}).get("lines", mode == "threads" and rng.random() < 0.5)
+        outs = {}
+        for i in range(nw):
+            chunks = [bytes([65 + i]) * rng.randrange(1, 5) + bytes([48 + j]) for j in range(rng.choice([0, 1, 2, 3]))]
+            outs[("w%d" % i).encode()] = chunks
+        if only is not None:
+            outs = {bytes.fromhex(a): [bytes.fromhex(c) for c in cs] for a, cs in only["outs"]}
+        clock = transports.Clock(1 << 40)
+        link = transports.Link(clock, [dict(sim=dict(maxdata=4096, shell=dict(outs), burst=bool((only or {}).get("burst", rng.random() < 0.3))), dt=1)])
+        sync_mod.time = clock
+        async_mod.time = clock
+        order = (only or {}).get("order")
+        results = [None] * nw
+        lost = []
+        deadlock = None
+        cmds = sorted(outs)
+        if mode == "threads":
+            dev = AdbDevice(transports.MemTransport(link), banner=b"verif")
+            dev.connect()
+            dev._local_id = start
+            baton = sched.Baton(rng, fixed=order)
+            dev._local_id_lock = sched.SchedLock(baton, "localId")
+            dev._io_manager._transport_lock = sched.SchedLock(baton, "transport")
+            dev._io_manager._store_lock = sched.SchedLock(baton, "store")
+            instrument_store(dev, lost)
+            orig_r, orig_w = link.bulk_read, link.bulk_write
+
+            def br(nb, t):
+                baton.park(("io",))
+                return orig_r(nb, t)
+
+            def bw(d, t):
+                baton.park(("io",))
+                return orig_w(d, t)
+            link.bulk_read, link.bulk_write = br, bw
+            tracer = sched.line_tracer(baton, {AdbDevice._open.__code__}) if lines else None
+
+            def worker(i):
+                if tracer:
+                    sys.settrace(tracer)
+                try:
+                    results[i] = ("ok", dev.shell(cmds[i].decode(), transport_timeout_s=1.0, read_timeout_s=5.0, decode=False))
+                except Exception as exc:  # noqa
+                    results[i] = ("err", type(exc).__name__)
+                finally:
+                    sys.settrace(None)
+            threads = baton.spawn([lambda i=i: worker(i) for i in range(nw)])
+            try:
+                baton.drive()
+            except sched.Deadlock as exc:
+                deadlock = str(exc)
+            for t in threads:
+                t.join(timeout=2.0)
+            sched_order = [e[0] for e in baton.log if e[1] in ("acq", "line")]
+        else:
+            out = {}
+
+            async def main():
+                dev = AdbDeviceAsync(transports.MemTransportAsync(link), banner=b"verif")
+                await dev.connect()
+                dev._local_id = start
+                baton = sched.AsyncBaton(rng, fixed=order)
+                baton.held, baton.ctx = {}, {}
+                task_ids = {}
+                tid_of = lambda: task_ids.get(asyncio.current_task())
+                dev._local_id_lock = sched.AsyncSchedLock(baton, "localId", tid_of)
+                dev._io_manager._transport_lock = sched.AsyncSchedLock(baton, "transport", tid_of)
+                dev._io_manager._store_lock = sched.AsyncSchedLock(baton, "store", tid_of)
+                instrument_store(dev, lost)
+                tr = dev._io_manager._transport
+                orig_r, orig_w = tr.bulk_read, tr.bulk_write
+
+                async def br(nb, t):
+                    await baton.park(tid_of(), ("io",))
+                    return await orig_r(nb, t)
+
+                async def bw(d, t):
+                    await baton.park(tid_of(), ("io",))
+                    return await orig_w(d, t)
+                tr.bulk_read, tr.bulk_write = br, bw
+
+                async def worker(i):
+                    await baton.park(i, ("start",))
+                    try:
+                        results[i] = ("ok", await dev.shell(cmds[i].decode(), transport_timeout_s=1.0, read_timeout_s=5.0, decode=False))
+                    except Exception as exc:  # noqa
+                        results[i] = ("err", type(exc).__name__)
+                    finally:
+                        baton.finished.add(i)
+                tasks = []
+                for i in range(nw):
+                    baton.tids.append(i)
+                    t = asyncio.ensure_future(worker(i))
+                    task_ids[t] = i
+                    tasks.append(t)
+                try:
+                    await baton.drive(tasks)
+                except sched.Deadlock as exc:
+                    out["deadlock"] = str(exc)
+                    for t in tasks:
+                        t.cancel()
+                await asyncio.gather(*tasks, return_exceptions=True)
+                out["order"] = [e[0] for e in baton.log if e[1] == "acq"]
+            loop = asyncio.new_event_loop()
+            try:
+                loop.run_until_complete(main())
+                loop.run_until_complete(loop.shutdown_asyncgens())
+            finally:
+                loop.close()
+            deadlock = out.get("deadlock")
+            sched_order = out.get("order", [])
+        sim = link.used[0].sim
+        rep.evaluations += 1
+        rep.count("conc_sessions_mode", mode)
+        ser = dict(kind="conc-sessions", mode=mode, workers=nw, start=start, lines=bool(lines), burst=bool(sim.cfg.get("burst")),
+                   outs=[[a.hex(), [c.hex() for c in cs]] for a, cs in sorted(outs.items())], order=sched_order)
+        rep.signatures.add(("concsess", mode, nw, tuple(sched_order[:40])))
+        fails = []
+        if deadlock:
+            fails.append(("deadlock", "deadlock: " + deadlock))
+        else:
+            if sim.malformed is not None:
+                fails.append(("malformed-wire", "the device received bytes that are not whole well-formed messages (header fields %r): concurrent sends interleaved" % (sim.malformed,)))
+            opens = [a0 for who, cmd, a0, a1, d in sim.log if who == "host" and cmd == b"OPEN"]
+            if len(set(opens)) != len(opens) or any(not (1 <= a <= 2 ** 32 - 1) for a in opens):
+                fails.append(("duplicate-or-invalid-id", "concurrent opens from counter %d carried local ids %r" % (start, opens)))
+            for i in range(nw):
+                want = b"".join(outs[cmds[i]])
+                r = results[i]
+                if r is None:
+                    fails.append(("incomplete", "worker %d never finished" % i))
+                elif r[0] == "ok" and bytes(r[1]) != want:
+                    fails.append(("crosstalk-or-reorder", "worker %d (%s) got %r, the device wrote %r on its stream" % (i, cmds[i].decode(), bytes(r[1]), want)))
+                elif r[0] == "err":
+                    kind = "lost-clse-no-entry" if lost and not any(f[0] in ("malformed-wire", "duplicate-or-invalid-id") for f in fails) else "incomplete"
+                    fails.append((kind, "worker %d (%s) raised %s on a healthy device%s" % (i, cmds[i].decode(), r[1], " after its CLSE was dropped by put() (K1)" if kind == "lost-clse-no-entry" else "")))
+        for kind, why in fails:
+            rep.prop_failures.append(dict(case=ser, why=why, signature=dict(kind=kind), no_shrink=True, replay_with="conc-sessions"))
+        if len([f for f in rep.prop_failures if f["signature"]["kind"] != "lost-clse-no-entry"]) > 5:
+            break
+
+
+def replay_conc_sessions(ctx, fl):
+    before = len(ctx.report.prop_failures)
+    conc_sessions(ctx, only=fl["case"])
+    new = ctx.report.prop_failures[before:]
+    for f in new:
+        print("FAIL:", f["why"])
+    return not new
